@@ -455,6 +455,15 @@ def arr(d):
     return np.array(d, dtype=float).reshape(-1, 2)
 
 
+def arr_any(d):
+    """like `arr`, but diagrams whose coordinates are all integers travel as an INTEGER array in half of the cases
+    (decided by the content, so a replay rebuilds the same representation): plots must not depend on the dtype"""
+    a = arr(d)
+    if a.size and np.all(np.isfinite(a)) and np.all(a == np.round(a)) and (int(abs(a).sum()) + len(d)) % 2 == 0:
+        return a.astype(np.int64)
+    return a
+
+
 def run_dgms(case):
     vis = common.pm("visuals")
     _, plt = _plt()
@@ -557,7 +566,7 @@ def run_match(case):
     fn = vis.bottleneck_matching if case["kind"] == "bn" else vis.wasserstein_matching
     m = np.array(case["rows"], dtype=float).reshape(-1, 3)
     kw = {} if case["labels"] is None else {"labels": list(case["labels"])}
-    return with_axes(case["given"], lambda ax: fn(arr(case["d1"]), arr(case["d2"]), m, ax=ax, **kw))
+    return with_axes(case["given"], lambda ax: fn(arr_any(case["d1"]), arr_any(case["d2"]), m, ax=ax, **kw))
 
 
 C45, S45 = float(np.cos(np.pi / 4)), float(np.sin(np.pi / 4))
